@@ -73,7 +73,7 @@ theorem rem_eq (prof : Profile) (a : Int) (p : Nat) (b : Int) (q : Nat) (hp : p 
       cases remI128 sa b <;> rfl
     | none =>
       simp only []
-      cases hr : remI128 a b with
+      cases hr : wrappingRemI128 a b with
       | panic k => rfl
       | ok r =>
         simp only [bind_ok']
@@ -83,7 +83,7 @@ theorem rem_eq (prof : Profile) (a : Int) (p : Nat) (b : Int) (q : Nat) (hp : p 
         | ok o => cases o <;> rfl
   · have hc : compare p q = .eq := Nat.compare_eq_eq.mpr h
     simp only [hc]
-    cases remI128 a b <;> rfl
+    cases wrappingRemI128 a b <;> rfl
   · have hc : compare p q = .gt := Nat.compare_eq_gt.mpr h
     simp only [hc, plainU8_sub prof p q hp h, bind_ok', checked_mul_pow_ten_eq]
     cases hm : checkedMulPowTen b (p - q) with
